@@ -392,7 +392,31 @@ def generate(repo=REPO):
         check("CoreTrackView::%s uses states_.%s and this->track_slot_id()" % (view, member),
               b is not None and ("states_.%s" % member) in b and "this->track_slot_id()" in b)
 
+    # ---- explicit TrackSlotId constructions (anything that addresses a slot other than
+    #      through CoreTrackView's thread->slot map) -------------------------------
+    slot_ctor_files = []
+    root = os.path.join(repo, "src", "celeritas")
+    for dp, dns, fns in os.walk(root):
+        dns.sort()
+        if os.path.relpath(dp, root).split(os.sep)[0] == "ext":
+            continue
+        for fn in sorted(fns):
+            if not fn.endswith((".hh", ".cc")):
+                continue
+            rel = os.path.relpath(os.path.join(dp, fn), os.path.join(repo, "src"))
+            txt = strip_comments(open(os.path.join(dp, fn), errors="replace").read())
+            n = 0
+            for m in re.finditer(r"\bTrackSlotId\s*[{(]", txt):
+                ctx_before = txt[max(0, m.start() - 12):m.start()]
+                after = txt[m.end():m.end() + 2]
+                if re.search(r"range\($", ctx_before) or after.startswith("}") or after.startswith(")"):
+                    continue      # iteration bound / null id
+                n += 1
+            if n:
+                slot_ctor_files.append((rel, str(n)))
+
     return {
+        "slot_ctor_files": slot_ctor_files,
         "all_state_fields": fields,
         "init_primary_writes": dedup(init_primary),
         "init_secondary_writes": dedup(init_secondary),
@@ -431,6 +455,8 @@ def emit(data, repo=REPO):
     out.append(coq_pairs("inplace_writes", data["inplace_writes"], "ProcessSecondariesExecutor in-place re-initialisation (same slot as the parent)"))
     out.append(coq_pairs("reseed_writes", data["reseed_writes"], "Stepper::reseed, for EVERY slot / every event counter"))
     out.append(coq_pairs("state_reset_writes", data["state_reset_writes"], "CoreState::reset"))
+    out.append(coq_pairs("slot_ctor_files", data["slot_ctor_files"],
+                         "(file, number of explicit TrackSlotId{...} constructions) outside CoreTrackView's thread->slot map"))
     body = ";\n   ".join("(%s, %s)" % (coq_str(t), "true" if ok else "false") for t, ok in data["shape_checks"])
     out.append("(* source shapes the translator relies on *)\nDefinition shape_checks : list (string * bool) :=\n  [%s].\n" % body)
     return "\n".join(out)
